@@ -155,17 +155,11 @@ def master_ser(E, R, testnet):
 
 
 def length_lemma(E, R, version):
-    """every 78-byte payload under this version encodes to exactly 111 Base58 characters"""
+    """every 78-byte payload under this version encodes to exactly 111 Base58 characters starting with the
+    version's letter (row of common.FIRST_CHAR used by the Base58Check summary)"""
     if not E.symbolic:
         return "native"
-    rest = E.int("rest", 0, 256 ** 78 - 1)          # 74 payload bytes + 4 checksum bytes
-    V = version * 256 ** 78 + rest
-    E.check(V >= 58 ** 110, "lemma: at least 111 Base58 digits")
-    E.check(V < 58 ** 111, "lemma: at most 111 Base58 digits")
-    alpha = "123456789ABCDEFGHJKLMNPQRSTUVWXYZabcdefghijkmnopqrstuvwxyz"
-    lo = min(alpha.index(c) for c in "tuvxyz")
-    hi = max(alpha.index(c) for c in "tuvxyz")
-    E.check((V >= lo * 58 ** 110) & (V < (hi + 1) * 58 ** 110), "lemma: first character is one of t u v x y z")
+    cm.b58_lemma(E, version.to_bytes(4, "big"), 78)
     return "ok"
 
 
@@ -178,7 +172,7 @@ def cases(tier):
                            need=("serialise(parse(x)) == x under the same version", "all fields survive parsing")))
         cs.append(Case("version[%d,%s,%s]" % (purpose, "test" if testnet else "main", kind), "version_algebra",
                        dict(purpose=purpose, testnet=testnet, kind=kind), need=("version -> BIP flavour",)))
-        cs.append(Case("length[%08x]" % v, "length_lemma", dict(version=v), need=("lemma: at most 111 Base58 digits",)))
+        cs.append(Case("length[%08x]" % v, "length_lemma", dict(version=v), need=("lemma: leading Base58 digit is at most the last listed character; length is m",)))
     cs.append(Case("unknown_version", "unknown_version", need=("a wallet cannot be built from an unknown version",)))
     for t in (False, True):
         cs.append(Case("master[%s]" % t, "master_ser", dict(testnet=t), need=("master xprv: zero depth, fingerprint, child number",)))
